@@ -56,3 +56,63 @@ Theorem c01_inputs_current : forall rules env F order rank,
     forall k0 slot d v f, In (EProvide k0 slot d v) l -> (rank d < f)%nat -> v = cv rules env F f d.
 Proof. exact c01_inputs_current_thm. Qed.
 Print Assumptions c01_inputs_current.
+
+(* ---- histories (Exec.v) over a fixed rule table ---- *)
+
+(* the invariant holds of the initial state ... *)
+Theorem c01_init : forall rules F, AtRest rules F init_state.
+Proof. exact AtRest_init. Qed.
+Print Assumptions c01_init.
+
+(* ... does not mention the environment (so [OSet] preserves it trivially), and is preserved by a new engine
+   instance with or without the database *)
+Theorem c01_restart : forall rules F s, AtRest rules F s -> AtRest rules F (restart s).
+Proof. exact AtRest_restart. Qed.
+Print Assumptions c01_restart.
+
+Theorem c01_restart_nodb : forall rules F s, AtRest rules F (restart_nodb s).
+Proof. exact AtRest_restart_nodb. Qed.
+Print Assumptions c01_restart_nodb.
+
+(* every operation of a history without rule edits preserves the invariant (HInv: the engine sees table tbl, no edit
+   is pending, AtRest holds); builds of keys whose rank is below the fuel *)
+Theorem c01_history : forall F order fuel rank tbl,
+  wf_rank (rules_of tbl) rank -> wf_disc (rules_of tbl) -> wf_order order ->
+  forall ops h, Forall no_rule_op ops -> Forall (build_ranked rank fuel) ops ->
+  HInv tbl F h -> HInv tbl F (fold_left (hstep F order fuel) ops h).
+Proof. exact c01_history_thm. Qed.
+Print Assumptions c01_history.
+
+(* hence after ANY such history a build returns (and logs as its result) the clean value of the key in the external
+   state of that moment *)
+Theorem c01_every_build_clean : forall F order fuel rank tbl,
+  wf_rank (rules_of tbl) rank -> wf_disc (rules_of tbl) -> wf_order order ->
+  forall ops k h0, Forall no_rule_op ops -> Forall (build_ranked rank fuel) ops ->
+  HInv tbl F h0 -> (rank k < fuel)%nat ->
+  let h := fold_left (hstep F order fuel) ops h0 in
+  exists s1, h_st (hstep F order fuel h (OBuild k)) =
+             emit s1 (EResult (cv (rules_of tbl) (env_of (h_env h)) F fuel k) false).
+Proof. exact c01_every_build_clean_thm. Qed.
+Print Assumptions c01_every_build_clean.
+
+(* the same from the very beginning: define the rules, start an engine (with or without database), then any history *)
+Theorem c01_run_history : forall F order fuel rank defs db ops k,
+  wf_rank (rules_of (rev defs)) rank -> wf_disc (rules_of (rev defs)) -> wf_order order ->
+  Forall no_rule_op ops -> Forall (build_ranked rank fuel) ops -> (rank k < fuel)%nat ->
+  let h := run_history F order fuel (rule_ops defs ++ ORestart db :: ops) in
+  exists s1, h_st (run_history F order fuel (rule_ops defs ++ ORestart db :: ops ++ [OBuild k])) =
+             emit s1 (EResult (cv (rules_of (rev defs)) (env_of (h_env h)) F fuel k) false).
+Proof. exact c01_run_history_thm. Qed.
+Print Assumptions c01_run_history.
+
+(* ---- non-vacuity: 8 rules with a branch, a must-follow, a single-use and a discovered edge; a 13-operation history
+   with 6 builds, external changes and a restart over the database ---- *)
+Example c01_example_hyps :
+  wf_rank (rules_of (rev ex_defs)) ex_rank /\ wf_disc (rules_of (rev ex_defs)) /\ wf_order ex_order /\
+  Forall no_rule_op ex_ops /\ Forall (build_ranked ex_rank 5) ex_ops.
+Proof. exact (conj ex_wf_rank (conj ex_wf_disc (conj ex_wf_order ex_ops_ok))). Qed.
+Print Assumptions c01_example_hyps.
+
+Example c01_example_builds_clean : ex_build_checks = [true; true; true; true; true; true].
+Proof. exact ex_history_clean. Qed.
+Print Assumptions c01_example_builds_clean.
